@@ -111,8 +111,9 @@ func (core *JApiCore) checkPathSchema(s *jschema.JSchema) error {
 		return err
 	}
 
+	visited := map[string]struct{}{}
 	for i := range s.ASTNode.Children {
-		if err := core.checkPathSchemaProperty(s.ASTNode.Children[i]); err != nil {
+		if err := core.checkPathSchemaProperty(s.ASTNode.Children[i], visited); err != nil {
 			return err
 		}
 	}
@@ -121,11 +122,20 @@ func (core *JApiCore) checkPathSchema(s *jschema.JSchema) error {
 }
 
 func (core *JApiCore) checkPathSchemaRoot(s *jschema.JSchema) error {
-	if s.ASTNode.TokenType == schema.TokenTypeShortcut {
+	// The user types already followed: a chain of references that never reaches
+	// an object (TYPE @a  @a // {nullable: true}) is not an object.
+	visited := map[string]struct{}{}
+
+	for s.ASTNode.TokenType == schema.TokenTypeShortcut {
 		typeName := s.ASTNode.SchemaType
 		if typeName == "mixed" {
 			return errors.New(jerr.PathOrErr)
 		}
+
+		if _, ok := visited[typeName]; ok {
+			return errors.New(jerr.PathObjectErr)
+		}
+		visited[typeName] = struct{}{}
 
 		ut, ok := core.catalog.UserTypes.Get(typeName)
 		if !ok {
@@ -137,7 +147,7 @@ func (core *JApiCore) checkPathSchemaRoot(s *jschema.JSchema) error {
 			return errors.New(jerr.PathObjectErr)
 		}
 
-		return core.checkPathSchemaRoot(es.JSchema)
+		s = es.JSchema
 	}
 
 	if s.ASTNode.TokenType != schema.TokenTypeObject {
@@ -199,7 +209,10 @@ func (core *JApiCore) checkPathSchemaPropertyInAllOf(typeName string) error {
 	return nil
 }
 
-func (core *JApiCore) checkPathSchemaProperty(an schema.ASTNode) error {
+// checkPathSchemaProperty checks a property of the Path schema. The visited set
+// holds the names of the user types already inspected for it: the types may
+// refer to each other in a circle (TYPE @a  @a // {nullable: true}).
+func (core *JApiCore) checkPathSchemaProperty(an schema.ASTNode, visited map[string]struct{}) error {
 	if an.TokenType == schema.TokenTypeObject || an.TokenType == schema.TokenTypeArray {
 		return fmt.Errorf("%s (%s)", jerr.PathMultiLevelPropertyErr, an.Key)
 	}
@@ -209,7 +222,7 @@ func (core *JApiCore) checkPathSchemaProperty(an schema.ASTNode) error {
 		for _, v := range rule.Items {
 			switch v.TokenType {
 			case schema.TokenTypeShortcut:
-				if err := core.checkPathSchemaPropertyUserType(v.Value); err != nil {
+				if err := core.checkPathSchemaPropertyUserType(v.Value, visited); err != nil {
 					return err
 				}
 			case schema.TokenTypeObject:
@@ -222,7 +235,7 @@ func (core *JApiCore) checkPathSchemaProperty(an schema.ASTNode) error {
 			}
 		}
 	} else if an.TokenType == schema.TokenTypeShortcut {
-		if err := core.checkPathSchemaPropertyUserType(an.Value); err != nil {
+		if err := core.checkPathSchemaPropertyUserType(an.Value, visited); err != nil {
 			return err
 		}
 	}
@@ -230,7 +243,12 @@ func (core *JApiCore) checkPathSchemaProperty(an schema.ASTNode) error {
 	return nil
 }
 
-func (core *JApiCore) checkPathSchemaPropertyUserType(typeName string) error {
+func (core *JApiCore) checkPathSchemaPropertyUserType(typeName string, visited map[string]struct{}) error {
+	if _, ok := visited[typeName]; ok {
+		return nil
+	}
+	visited[typeName] = struct{}{}
+
 	ut, ok := core.catalog.UserTypes.Get(typeName)
 	if !ok {
 		return fmt.Errorf(`%s (%s)`, jerr.UserTypeNotFound, typeName)
@@ -247,7 +265,7 @@ func (core *JApiCore) checkPathSchemaPropertyUserType(typeName string) error {
 		return errors.New(jerr.RuntimeFailure)
 	}
 
-	if err := core.checkPathSchemaProperty(rootNode); err != nil {
+	if err := core.checkPathSchemaProperty(rootNode, visited); err != nil {
 		return err
 	}
 
